@@ -11,6 +11,7 @@ import (
 	"fmt"
 	"strconv"
 	"strings"
+	"time"
 
 	capnp "capnproto.org/go/capnp/v3"
 	. "verifh/hc"
@@ -25,7 +26,7 @@ type genStats struct {
 	setters, ptrsets, crossCopies, memberCopies, crossSeg int
 	setstruct, copyfrom                                   int
 	skewSmaller, skewLarger, skewSame                     int
-	treeSkew, treeAlias                                   int
+	treeSkew, treeAlias, reopens, oddMembers              int
 	srcKinds                                              map[string]int
 	ptrKinds                                              map[string]int
 	arenas                                                map[string]int
@@ -47,9 +48,11 @@ func census(segs [][]byte, kinds map[string]int) (far, dfar int) {
 	}
 	var visit func(seg, off, depth int)
 	var object func(seg, base int, w uint64, depth int)
+	budget := 200000 // statistics only: bogus tags (huge counts) must not make the census run away
 	visit = func(seg, off, depth int) {
 		k := key{seg, off}
-		if seen[k] || depth > 200 {
+		budget--
+		if budget < 0 || seen[k] || depth > 200 {
 			return
 		}
 		seen[k] = true
@@ -93,14 +96,14 @@ func census(segs [][]byte, kinds map[string]int) (far, dfar int) {
 		switch w & 3 {
 		case 0:
 			dw, pc := int(w>>32&0xffff), int(w>>48)
-			for i := 0; i < pc; i++ {
+			for i := 0; i < pc && budget >= 0; i++ {
 				visit(seg, addr+8*dw+8*i, depth+1)
 			}
 		case 1:
 			et, n := int(w>>32&7), int(w>>35)
 			switch et {
 			case 6:
-				for i := 0; i < n && i < 1<<16; i++ {
+				for i := 0; i < n && i < 1<<16 && budget >= 0; i++ {
 					visit(seg, addr+8*i, depth+1)
 				}
 			case 7:
@@ -109,8 +112,8 @@ func census(segs [][]byte, kinds map[string]int) (far, dfar int) {
 					return
 				}
 				cnt, dw, pc := int(int32(uint32(tag))>>2), int(tag>>32&0xffff), int(tag>>48)
-				for e := 0; e < cnt && e < 1<<16; e++ {
-					for i := 0; i < pc; i++ {
+				for e := 0; e < cnt && e < 1<<16 && budget >= 0; e++ {
+					for i := 0; i < pc && budget >= 0; i++ {
 						visit(seg, addr+8+8*(e*(dw+pc)+dw+i), depth+1)
 					}
 				}
@@ -215,14 +218,14 @@ func (st *genStats) account(p *prog) {
 
 // validCase: the bytes Message.Marshal produces, split into segments by a frame parser
 // written from the encoding document, and the tree the library itself reads from them.
-func validCase(s *Session) (string, string) {
+func validLine(s *Session) string {
 	b, err := s.Dst.Marshal()
 	if err != nil {
-		return "V _ 20", "marshal-err"
+		return "V _ 20"
 	}
 	segs, ok := splitFrame(b)
 	if !ok {
-		return "V _ 20", "bad-frame"
+		return "V _ 20"
 	}
 	hs := make([]string, len(segs))
 	for i, sg := range segs {
@@ -236,8 +239,21 @@ func validCase(s *Session) (string, string) {
 			break
 		}
 	}
-	line := fmt.Sprintf("V %s %d", strings.Join(hs, ","), fuel)
-	return line, validObs(segs, fuel)
+	return fmt.Sprintf("V %s %d", strings.Join(hs, ","), fuel)
+}
+
+// validObsLine: the library's own reading of the bytes in a validity case line
+func validObsLine(line string) string {
+	f := strings.Fields(line)
+	var segs [][]byte
+	if f[1] == "_" {
+		return "marshal-err"
+	}
+	for _, x := range strings.Split(f[1], ",") {
+		segs = append(segs, Unhx(x))
+	}
+	fuel, _ := strconv.Atoi(f[2])
+	return validObs(segs, fuel)
 }
 
 // unfoldSize: number of pointer visits of a walk of the root with the given depth fuel
@@ -357,6 +373,32 @@ func splitFrame(b []byte) ([][]byte, bool) {
 	return segs, pos == len(b)
 }
 
+var caseTimeout = flag.Duration("casetimeout", 20*time.Second, "watchdog per case")
+
+// withWatchdog runs f; false = f did not finish within the per-case timeout (f keeps running
+// in its goroutine: the caller must stop using what f touches).
+func withWatchdog(f func()) bool {
+	done := make(chan struct{})
+	go func() {
+		defer close(done)
+		f()
+	}()
+	select {
+	case <-done:
+		return true
+	case <-time.After(*caseTimeout):
+		return false
+	}
+}
+
+var replayObs []string
+
+func setReplayObs(r []string) {
+	progMu.Lock()
+	replayObs = append([]string{}, r...)
+	progMu.Unlock()
+}
+
 func replayCase(line string) (string, string) {
 	f := strings.Fields(line)
 	if len(f) >= 3 && f[0] == "V" {
@@ -378,10 +420,12 @@ func replayCase(line string) (string, string) {
 		return f[0], "new:err"
 	}
 	res := []string{"new:ok"}
+	setReplayObs(res)
 	if len(f) > 8 && f[8] != "-" {
 		for _, op := range strings.Split(f[8], ";") {
 			o, stop := s.Do(op)
 			res = append(res, o)
+			setReplayObs(res)
 			if stop {
 				break
 			}
@@ -393,7 +437,15 @@ func replayCase(line string) (string, string) {
 func run(out *Out, r *Rand, tier string, replay []string) {
 	if replay != nil {
 		for _, l := range replay {
-			k, obs := replayCase(l)
+			var k, obs string
+			l := l
+			if !withWatchdog(func() { k, obs = replayCase(l) }) {
+				progMu.Lock()
+				k, obs = "hang", strings.Join(append(append([]string{}, replayObs...), "hang"), ";")
+				progMu.Unlock()
+				out.Case(k, l, obs, "hang", true)
+				break
+			}
 			out.Case(k, l, obs, Cls(obs), true)
 		}
 		out.Close("replay")
@@ -405,46 +457,71 @@ func run(out *Out, r *Rand, tier string, replay []string) {
 	}
 	st := &genStats{srcKinds: map[string]int{}, ptrKinds: map[string]int{}, arenas: map[string]int{}}
 	skipped := 0
-	for i := 0; i < n; i++ {
+	hung := 0
+	for i := 0; i < n && hung == 0; i++ {
+		var vl, vo, kind, line, obs string
 		var p *prog
-		kind := ""
-		switch *mode {
-		case "c16":
-			if r.Intn(8) == 0 {
-				p, kind = genTree(r, st), "tree"
+		emitted := false
+		stage := "program"
+		ok := withWatchdog(func() {
+			switch *mode {
+			case "c16":
+				if r.Intn(8) == 0 {
+					p, kind = genTree(r, st), "tree"
+				} else {
+					p, kind = genAdaptive(r, st, true), "copy"
+				}
+			case "c05":
+				if r.Intn(2) == 0 {
+					p, kind = genTree(r, st), "tree"
+				} else {
+					p, kind = genAdaptive(r, st, false), "adaptive"
+				}
+			default:
+				if r.Intn(3) == 0 {
+					p, kind = genTree(r, st), "tree"
+				} else {
+					p, kind = genAdaptive(r, st, false), "adaptive"
+				}
+			}
+			line, obs = p.line()
+			if len(line) > 400000 || len(obs) > 800000 {
+				skipped++
+				return
+			}
+			st.account(p)
+			out.Case(kind, line, obs, classOf(p), p.s != nil && len(p.ops) >= 4)
+			emitted = true
+			// a message without a root word (hand-made arena whose first segment is smaller than
+			// one word) cannot have a tree attached: outside C05
+			if segs := p.s0(); *mode == "c05" && p.s != nil && len(segs) > 0 && len(segs[0]) >= 8 {
+				stage = "valid"
+				vl = validLine(p.s)
+				if p.expect != "" && !p.stopped {
+					vl += " expect=" + p.expect
+				}
+				vo = validObsLine(vl)
+				out.Case("valid-"+kind, vl, vo, Cls(strings.Replace(vo, ";", " ", 1)), true)
+			}
+		})
+		if !ok {
+			// the case did not finish in time: it becomes an observation ("hang") with a replay;
+			// the stuck goroutine cannot be stopped, so generation ends here
+			hung++
+			progMu.Lock()
+			cp := curProg
+			if stage == "valid" && vl != "" {
+				out.Case("valid-hang", vl, "hang", "hang", true)
+			} else if cp != nil && !emitted {
+				hl, ho := cp.lineLocked()
+				out.Case("hang", hl, ho+";hang", "hang", true)
 			} else {
-				p, kind = genAdaptive(r, st, true), "copy"
+				out.Case("hang", "harness-internal-hang", "hang", "hang", true)
 			}
-		case "c05":
-			if r.Intn(2) == 0 {
-				p, kind = genTree(r, st), "tree"
-			} else {
-				p, kind = genAdaptive(r, st, false), "adaptive"
-			}
-		default:
-			if r.Intn(3) == 0 {
-				p, kind = genTree(r, st), "tree"
-			} else {
-				p, kind = genAdaptive(r, st, false), "adaptive"
-			}
-		}
-		line, obs := p.line()
-		if len(line) > 400000 || len(obs) > 800000 {
-			skipped++
-			continue
-		}
-		st.account(p)
-		out.Case(kind, line, obs, classOf(p), p.s != nil && len(p.ops) >= 4)
-		// a message without a root word (hand-made arena whose first segment is smaller than
-		// one word) cannot have a tree attached (SetRoot panics): outside C05
-		if segs := p.s0(); *mode == "c05" && p.s != nil && len(segs) > 0 && len(segs[0]) >= 8 {
-			vl, vo := validCase(p.s)
-			if p.expect != "" && !p.stopped {
-				vl += " expect=" + p.expect
-			}
-			out.Case("valid-"+kind, vl, vo, Cls(strings.Replace(vo, ";", " ", 1)), true)
+			progMu.Unlock()
 		}
 	}
+	out.Extra["x_hung_cases"] = hung
 	out.Extra["x_pointer_census"] = st.ptrKinds
 	out.Extra["x_arenas"] = st.arenas
 	out.Extra["x_source_kinds"] = st.srcKinds
@@ -453,7 +530,7 @@ func run(out *Out, r *Rand, tier string, replay []string) {
 		"cross_message_copies": st.crossCopies, "list_member_copies": st.memberCopies,
 		"cross_segment_targets": st.crossSeg, "setstruct": st.setstruct, "copyfrom": st.copyfrom,
 		"skew_dst_smaller": st.skewSmaller, "skew_dst_larger": st.skewLarger, "skew_same": st.skewSame,
-		"tree_setstruct_skew": st.treeSkew, "tree_aliased_targets": st.treeAlias,
+		"reopened_after_decode": st.reopens, "list_struct_of_sub_word_lists": st.oddMembers, "tree_setstruct_skew": st.treeSkew, "tree_aliased_targets": st.treeAlias,
 		"single_segment_regrowth": st.regrow, "multi_new_segments": st.newSegs,
 		"stopped_at_err": st.stoppedErr, "stopped_at_panic": st.stoppedPanic,
 		"programs_with_far": st.progsWithFar, "programs_with_double_far": st.progsWithDfar,
